@@ -138,19 +138,27 @@ structure DryState where
   created : List APath := []
 deriving Repr
 
-/-- `DryRunRenamer.__call__` (after F1/F3) -/
-def dryRunRenamer (s : DryState) (cwd : APath) (src dst : PurePath) (override : Bool) : DryState × Option RenErr :=
+/-- `DryRunRenamer.__call__` (after F1/F3/F14/F15/F16); `sameDir` = it stands in for `FileRenamer` -/
+def dryRunRenamerWith (sameDir : Bool) (s : DryState) (cwd : APath) (src dst : PurePath) (override : Bool) :
+    DryState × Option RenErr :=
   let sk := absKey cwd src
   let dk := absKey cwd dst
-  -- F14: existence in the real file system is tested on the normalised key
-  let srcExists := (lexists s.base sk || s.created.contains sk) && !s.removed.contains sk
-  if !srcExists then (s, some .notFound)
+  -- existence in the real file system is tested on the normalised key; destination first
+  let dstExists := (lexists s.base dk || s.created.contains dk) && !s.removed.contains dk
+  if dstExists && !override then (s, some .destExists)
+  else if sameDir && decide (parentOf src ≠ parentOf dst) then (s, some .invalidDest)
   else
-    let dstExists := (lexists s.base dk || s.created.contains dk) && !s.removed.contains dk
-    if dstExists && !override then (s, some .destExists)
+    let srcExists := (lexists s.base sk || s.created.contains sk) && !s.removed.contains sk
+    if !srcExists then (s, some .notFound)
     else
       let removed := (s.removed ++ [sk]).filter (· ≠ dk)      -- add(src); discard(dst)
       let created := (s.created ++ [dk]).filter (· ≠ sk)      -- add(dst); discard(src)
       ({ s with removed := removed, created := created }, none)
+
+def dryRunRenamer (s : DryState) (cwd : APath) (src dst : PurePath) (override : Bool) : DryState × Option RenErr :=
+  dryRunRenamerWith true s cwd src dst override
+
+def dryRunMover (s : DryState) (cwd : APath) (src dst : PurePath) (override : Bool) : DryState × Option RenErr :=
+  dryRunRenamerWith false s cwd src dst override
 
 end Tempren
